@@ -11,6 +11,7 @@ import (
 	"strconv"
 	"strings"
 
+	"lwverif/internal/load"
 	"lwverif/internal/tables"
 )
 
@@ -467,20 +468,58 @@ func c12Ping(c *Ctx, bands *tables.Bands, cfg *tables.BandConfig, fam regBand) {
 	}
 	info := c.Prog.Pkg("band").TypesInfo
 	key := id + "/GetPingSlotFrequency/hop"
-	// locate the single % expression
-	var rems []*ast.BinaryExpr
-	ast.Inspect(fd.Body, func(n ast.Node) bool {
-		if be, ok := n.(*ast.BinaryExpr); ok && be.Op == token.REM {
-			rems = append(rems, be)
-		}
-		return true
-	})
+	// locate the single % expression: in the method itself or in a helper of package band that it calls
+	findRems := func(body *ast.BlockStmt) []*ast.BinaryExpr {
+		var out []*ast.BinaryExpr
+		ast.Inspect(body, func(n ast.Node) bool {
+			if be, ok := n.(*ast.BinaryExpr); ok && be.Op == token.REM {
+				out = append(out, be)
+			}
+			return true
+		})
+		return out
+	}
+	hopFn := fd
+	var helperCall *ast.CallExpr
+	rems := findRems(fd.Body)
+	if len(rems) == 0 {
+		ast.Inspect(fd.Body, func(n ast.Node) bool {
+			call, ok := n.(*ast.CallExpr)
+			if !ok || helperCall != nil {
+				return true
+			}
+			if fn := calleeFunc(info, call); fn != nil && fn.Pkg() == c.Prog.Pkg("band").Types {
+				for _, cand := range load.AllFuncDecls(c.Prog.Pkg("band")) {
+					if info.Defs[cand.Name] == fn {
+						if rr := findRems(cand.Body); len(rr) == 1 {
+							hopFn, helperCall, rems = cand, call, rr
+						}
+					}
+				}
+			}
+			return true
+		})
+	}
 	if len(rems) != 1 {
-		r.Unknown("R6.ping", key, pos, "exactly one modulo expression", fmt.Sprint(len(rems)))
+		r.Unknown("R6.ping", key, pos, "exactly one modulo expression (in the method or a helper it calls)", fmt.Sprint(len(rems)))
 		return
 	}
 	rem := rems[0]
 	mv := info.Types[rem.Y].Value
+	if mv == nil && helperCall != nil {
+		// modulus passed as a helper parameter: take the constant argument at the call site
+		if mid, ok := unparen(stripConv(info, rem.Y)).(*ast.Ident); ok && hopFn.Type.Params != nil {
+			idx := 0
+			for _, f := range hopFn.Type.Params.List {
+				for _, nm := range f.Names {
+					if info.Defs[nm] == info.Uses[mid] && idx < len(helperCall.Args) {
+						mv = info.Types[helperCall.Args[idx]].Value
+					}
+					idx++
+				}
+			}
+		}
+	}
 	if mv == nil {
 		r.Unknown("R6.ping", key, pos, "constant modulus", types.ExprString(rem.Y))
 		return
@@ -494,8 +533,40 @@ func c12Ping(c *Ctx, bands *tables.Bands, cfg *tables.BandConfig, fam regBand) {
 	}
 	// operands: int(binary.BigEndian.Uint32(devAddr[:])) and int(beaconTime / C)
 	var sawAddr, sawTime bool
+	if t := info.TypeOf(sum); t != nil {
+		// The sum is exact modulo m when it is formed in an unsigned type whose width the power-of-two modulus
+		// divides (wrap-around is invisible modulo m), or in a signed type of at least 64 bits (no wrap for a
+		// 32-bit address plus a beacon count). Judged for both word sizes the library builds for.
+		okAll, got := true, t.String()
+		for _, arch := range []string{"amd64", "386"} {
+			sz := types.SizesFor("gc", arch).Sizeof(t) * 8
+			bt, _ := t.Underlying().(*types.Basic)
+			unsigned := bt != nil && bt.Info()&types.IsUnsigned != 0
+			pow2 := m > 0 && m&(m-1) == 0
+			if !((unsigned && pow2 && sz >= 32) || (!unsigned && sz >= 64)) {
+				okAll = false
+				got = fmt.Sprintf("%s (%d bits on %s)", t.String(), sz, arch)
+			}
+		}
+		r.Check(okAll, "R6.ping", key+"/width", P.Rel(sum.Pos()), "DevAddr + beacon periods formed without a sign wrap: unsigned >= 32 bits with a power-of-two modulus, or signed >= 64 bits, on every supported word size (a 32-bit signed sum is negative for DevAddr >= 0x80000000 and indexes the table out of range)", got, true)
+	}
 	for _, op := range []ast.Expr{sum.X, sum.Y} {
 		inner := stripConv(info, op)
+		// a local defined once by := stands for its defining expression
+		if lid, ok := inner.(*ast.Ident); ok {
+			var defs []ast.Expr
+			ast.Inspect(hopFn.Body, func(n ast.Node) bool {
+				if as, ok := n.(*ast.AssignStmt); ok && len(as.Lhs) == 1 && len(as.Rhs) == 1 {
+					if l, ok := as.Lhs[0].(*ast.Ident); ok && (info.Defs[l] == info.Uses[lid] || info.Uses[l] == info.Uses[lid]) && info.Uses[lid] != nil {
+						defs = append(defs, as.Rhs[0])
+					}
+				}
+				return true
+			})
+			if len(defs) == 1 {
+				inner = stripConv(info, defs[0])
+			}
+		}
 		switch x := inner.(type) {
 		case *ast.CallExpr:
 			// endian decode of the DevAddr parameter
@@ -547,7 +618,7 @@ func c12Ping(c *Ctx, bands *tables.Bands, cfg *tables.BandConfig, fam regBand) {
 	var tableDesc string
 	tableOK := false
 	var hopVar types.Object
-	ast.Inspect(fd.Body, func(n ast.Node) bool {
+	ast.Inspect(hopFn.Body, func(n ast.Node) bool {
 		if as, ok := n.(*ast.AssignStmt); ok && len(as.Rhs) == 1 && unparen(as.Rhs[0]) == ast.Expr(rem) {
 			if lid, ok := as.Lhs[0].(*ast.Ident); ok {
 				hopVar = info.Defs[lid]
@@ -555,6 +626,32 @@ func c12Ping(c *Ctx, bands *tables.Bands, cfg *tables.BandConfig, fam regBand) {
 		}
 		return true
 	})
+	if helperCall != nil {
+		// the helper must return the hop value; in the method the index is the helper's result
+		retOK := false
+		ast.Inspect(hopFn.Body, func(n ast.Node) bool {
+			if rs, ok := n.(*ast.ReturnStmt); ok && len(rs.Results) >= 1 {
+				e := stripConv(info, rs.Results[0])
+				if e == ast.Expr(rem) {
+					retOK = true
+				}
+				if rid, ok := e.(*ast.Ident); ok && hopVar != nil && info.Uses[rid] == hopVar {
+					retOK = true
+				}
+			}
+			return true
+		})
+		r.Check(retOK, "R6.ping", key+"/helper-returns-hop", P.Rel(hopFn.Pos()), "helper returns the hop value", fmt.Sprint(retOK), true)
+		hopVar = nil
+		ast.Inspect(fd.Body, func(n ast.Node) bool {
+			if as, ok := n.(*ast.AssignStmt); ok && len(as.Rhs) == 1 && unparen(as.Rhs[0]) == ast.Expr(helperCall) {
+				if lid, ok := as.Lhs[0].(*ast.Ident); ok {
+					hopVar = info.Defs[lid]
+				}
+			}
+			return true
+		})
+	}
 	var final *ast.ReturnStmt
 	for _, s := range fd.Body.List {
 		if rs, ok := s.(*ast.ReturnStmt); ok {
@@ -577,6 +674,9 @@ func c12Ping(c *Ctx, bands *tables.Bands, cfg *tables.BandConfig, fam regBand) {
 	}
 	iid, ok := ix.Index.(*ast.Ident)
 	idxOK := ok && hopVar != nil && info.Uses[iid] == hopVar
+	if helperCall != nil && unparen(ix.Index) == ast.Expr(helperCall) {
+		idxOK = true
+	}
 	r.Check(idxOK, "R6.ping", key+"/index", P.Rel(ix.Pos()), "table indexed by the hop expression", types.ExprString(ix.Index), true)
 	var wantTab string
 	var wantList []int
@@ -599,6 +699,13 @@ func c12Ping(c *Ctx, bands *tables.Bands, cfg *tables.BandConfig, fam regBand) {
 		}
 		r.Check(good, "R6.ping", key+"/table", P.Rel(ix.Pos()), fmt.Sprint(wantList), tables.Show(v), true)
 	}
+}
+
+func minInt(a, b int) int {
+	if a < b {
+		return a
+	}
+	return b
 }
 
 func unparen(e ast.Expr) ast.Expr {
